@@ -156,6 +156,69 @@ MapLawsAssoc ==
      /\ IterationSecondR(<<TRUE, FALSE, TRUE>>, m).st = SelectSeq(m, LAMBDA e : e[2] = 1)
 
 ----------------------------------------------------------------------------
+(* extension round: laws of the added helpers (over s, pt, v) *)
+ExtensionSeqLaws ==
+  /\ Equal(s, s) /\ (Equal(s, Reverse(s)) <=> s = Reverse(s))
+  /\ (s # <<>> => ~Equal(s, Prefix(s, Len(s) - 1)) /\ ~Equal(Prefix(s, Len(s) - 1), s))
+  /\ PopBackR(Append(s, v)) = [r |-> Some(v), st |-> s]
+  /\ PopFrontR(<<v>> \o s) = [r |-> Some(v), st |-> s]
+  /\ PopBackR(<<>>) = [r |-> None, st |-> <<>>] /\ PopFrontR(<<>>) = [r |-> None, st |-> <<>>]
+  /\ MaybeFront(s) = AtOptional(s, 0) /\ MaybeBack(s) = AtOptional(s, Len(s) - 1)
+  /\ MaybeBackMutR(s, 7).st = AtOptionalMutR(s, Len(s) - 1, 7).st
+  /\ Len(SeqText(s)) = 2 + Len(s) + MaxOf(Len(s) - 1, 0)
+  /\ (s # <<>> => SplitString(SubSeq(SeqText(s), 2, Len(SeqText(s)) - 1), 44) = [i \in Indices(s) |-> Digit(s[i])])
+  /\ TupleText(s)[1] = 40 /\ SubSeq(TupleText(s), 2, Len(TupleText(s)) - 1) = SubSeq(SeqText(s), 2, Len(SeqText(s)) - 1)
+  /\ RangeFromPair(s, 0, Len(s)) = s /\ (RangeSingular(s) <=> (~RangeEmpty(s) /\ RangeEmpty(Tail(s))))
+  /\ RangeSize(s) = SizeOf(s) /\ DataR(s).null = RangeEmpty(s)
+  /\ ContainerMake("set", s) = SortedSeqOf(RangeOf(s)) /\ ContainerMake("vector", s) = s
+  /\ EnumIndexOfArray(s, v) = IndexOf(s, v)
+  /\ LET names == [i \in 1..3 |-> <<101, 47 + i>>]
+     IN \A i \in 1..3 : EnumFromString(names, names[i]) = Some(i - 1) /\ EnumFromString(names, <<101>>) = None
+  /\ TupleInvokeR(<<0, 1, 2>>, s).r = SeqSum(s) % 3
+  /\ ArrayApplyR(<<<<0, 1, 2>>, <<0, 1, 2>>, <<0, 1, 2>>>>, s, Reverse(s)).r = Reverse(s)
+(* index_map accessed once from state s (index v + Len(s) - 1 .. beyond), generator table from pt *)
+IndexMapLaws ==
+  \A i \in 0..(MaxLen + 2) :
+    LET gen(j) == IF Ap(pt, j % 3) THEN 1 ELSE 2
+        g == IndexMapGetR(s, i, gen, 7)
+    IN /\ Len(g.st) = MaxOf(Len(s), i + 1)                          \* grows exactly to index + 1
+       /\ g.calls = MaxOf(i + 1 - Len(s), 0)                        \* insert() once per new element
+       /\ \A j \in Indices(s) : j # i + 1 => g.st[j] = s[j]          \* existing elements untouched
+       /\ \A j \in (Len(s) + 1)..Len(g.st) : j # i + 1 => g.st[j] = gen(j - Len(s) - 1)
+       /\ g.r = (IF i < Len(s) THEN s[i + 1] ELSE gen(i - Len(s))) /\ g.st[i + 1] = g.r + 7
+       /\ IndexMapSubscriptR(s, i, 0).st = IndexMapGetR(s, i, LAMBDA j : 0, 0).st
+
+(* laws over sets / maps *)
+ExtensionSetLaws ==
+  \A x \in 0..SetMax :
+    LET ins == InsertSetR(a, x)
+    IN /\ IsStrictlySorted(ins.st) /\ RangeOf(ins.st) = RangeOf(a) \cup {x}
+       /\ (ins.r <=> ~ContainsKey(a, x)) /\ ~InsertSetR(ins.st, x).r /\ InsertSetR(ins.st, x).st = ins.st
+       /\ FindElemR(0, a, x).pos = FindOpt(a, x)
+ExtensionMapLaws ==
+  \A x \in Dom :
+    LET ins == InsertMapR(m, v, x)
+    IN /\ IsMapSeq(ins.st) /\ Keys(ins.st) = Keys(m) \cup {v}
+       /\ (ins.r <=> v \notin Keys(m))
+       /\ FindOptMapped(ins.st, v) = (IF v \in Keys(m) THEN FindOptMapped(m, v) ELSE Some(x))
+       /\ FindElemR(1, m, v).elem = (IF FindOptMapped(m, v) = None THEN None ELSE Some(<<v, FindOptMapped(m, v)[1]>>))
+       /\ (FindElemR(1, m, v).pos # None <=> v \in Keys(m))
+
+(* container::index_map as a state machine: state = the wrapped vector (variable s); every
+   access either reads or grows it; old elements never change, the size never shrinks *)
+IMMaxIdx == 3
+InitIM == /\ s = <<>> /\ pt = <<FALSE, FALSE, FALSE>> /\ v = 0
+          /\ a = <<>> /\ b = <<>> /\ c = <<>> /\ m = <<>> /\ ut = <<0, 0, 0>>
+IMGet(i, t) == s' = IndexMapGetR(s, i, LAMBDA j : Ap(t, j % 3), 0).st
+IMSubscript(i) == s' = IndexMapSubscriptR(s, i, 0).st
+NextIM == /\ UNCHANGED <<pt, v, a, b, c, m, ut>>
+          /\ \E i \in 0..IMMaxIdx : IMSubscript(i) \/ \E t \in UnaryTables : IMGet(i, t)
+SpecIM == InitIM /\ [][NextIM]_vars
+IMTypeOK == Len(s) <= IMMaxIdx + 1 /\ \A j \in Indices(s) : s[j] \in Dom
+IMStep == Len(s') >= Len(s) /\ \A j \in Indices(s) : s'[j] = s[j]
+IMMonotone == [][IMStep]_vars
+
+----------------------------------------------------------------------------
 (* defective definitions for the vacuity guards *)
 SplitStringDropTrailing(q, d) ==      \* DESIGN 7: drop the trailing piece
   LET Pos == SortedSeqOf({i \in Indices(q) : q[i] = d})
@@ -186,5 +249,12 @@ JoinMapRightBiased(cs) ==
 ReverseRotate(q) == IF q = <<>> THEN q ELSE Tail(q) \o <<Head(q)>>
 MapOptionalFirstOnly(f(_), q) == IF q = <<>> THEN <<>> ELSE f(q[1])
 ArrayFromRangeAtLeast(n, q) == IF Len(q) >= n THEN Some(Prefix(q, n)) ELSE None
+EqualCommonPrefix(q, r) == \A i \in 1..MinOf(Len(q), Len(r)) : q[i] = r[i]    \* std::equal without the second end
+PopFrontRemovesBack(q) == [r |-> MaybeFront(q), st |-> IF q = <<>> THEN q ELSE SubSeq(q, 1, Len(q) - 1)]
+SeqTextTrailingComma(q) == <<91>> \o Flatten([i \in Indices(q) |-> Digit(q[i]) \o <<44>>]) \o <<93>>
+IndexMapGrowRefill(st, i, gen(_)) == IF i < Len(st) THEN st ELSE [j \in 1..(i + 1) |-> gen(j - 1)]
+InsertMapOverwrites(mm, k, x) ==
+  [r |-> k \notin Keys(mm), st |-> PairsSorted({mm[j] : j \in {jj \in Indices(mm) : mm[jj][1] # k}} \cup {<<k, x>>})]
+InsertSetAlwaysTrue(q, x) == [r |-> TRUE, st |-> SortedSeqOf(RangeOf(q) \cup {x})]
 AtOptionalOffByOne(q, i) == IF i >= 0 /\ i <= Len(q) /\ Len(q) > 0 THEN Some(q[MinOf(i + 1, Len(q))]) ELSE None
 =============================================================================
